@@ -144,6 +144,12 @@ def far_scenarios(seed):
             c = math.cos(ph)
             evs = [eventsim.make_event("y0", c, s_ * r.choice([1, -1]), 0, False) for s_ in (1.0, 1e3, 1e-3)]
             out.append((dict(method=r.choice(["RK4Solver", "RK45CKSolver"]), t0=t0, tf=t0 + d * 0.05, dt=1e-3, dense=r.random() < 0.5, omega=omega), evs))
+    # event functions of very different magnitude monitored together (down to 1e-18 next to O(1) and 1e6): each one's crossings are its own
+    for (t0, tf) in [(0.0, 6.0), (0.0, -6.0), (-2.0, 4.0)]:
+        c = r.uniform(-0.7, 0.7)
+        scales = [1e-18, 1.0, 1e-12, 1e6, 1e-15]
+        evs = [eventsim.make_event("y0", c + 0.01 * k, s_ * r.choice([1, -1]), 0, False) for k, s_ in enumerate(scales)]
+        out.append((dict(method=r.choice(["RK4Solver", "RK45CKSolver"]), t0=t0, tf=tf, dt=0.1, dense=r.random() < 0.5), evs))
     return out
 
 
